@@ -79,6 +79,20 @@ theorem C05_valid_prefix_rejected (t : Ty) (hwf : t.wf = true) (v : Val) (h : HC
   refine C05_truncation t prior s v _ hc hd ?_ k (by rw [hb]; exact hk)
   simp [hb]
 
+/-- Corollary with `C01_stream`: every strict prefix of `n` valid messages written back to
+back is rejected when read as `n` messages. -/
+theorem C05_valid_stream_prefix_rejected (t : Ty) (hwf : t.wf = true) (vs : List Val) (h : HChan)
+    (bs : Bytes) (h' : HChan) (hv : ∀ v ∈ vs, valid t v = true)
+    (he : encAll (encode t) vs h = .ok (bs, h'))
+    (s : Src) (hc : s.fault = .none) (hb : s.bytes = bs)
+    (hf : framesOk bs.length s.frames = true) (hr : Resolves s.handles h'.pushed)
+    (k : Nat) (hk : k < bs.length) :
+    ∃ e s2, repM vs.length (dec t) (s.cut k) = (.error e, s2) := by
+  have hd := repM_encAll (f := dec t) (fun a h b h' hab => encode_mono t a h b h' hab) vs h bs h'
+    (fun a ha _ _ _ hab => (rt t hwf).decInto (dflt t) (hv a ha) hab) he s [] hc (by simpa using hb) hf hr
+  refine C05_truncation_stream t vs.length s vs _ hc hd ?_ k (by rw [hb]; exact hk)
+  simp [hb]
+
 /-- non-vacuity of the stream theorem: two messages, six bytes, all consumed -/
 example : repM 2 (dec (.int .u16 .plain)) ({ bytes := [0x81, 0x34, 0x12, 0x81, 0x01, 0x00] } : Src) =
     (.ok [.int 0x1234, .int 1], { bytes := [] }) := by rfl
